@@ -527,14 +527,15 @@ static std::string run_case(const Args& a, long i, const std::string& outdir) {
     }
     // ---- an earlier simulation of the same process, written to another folder (a parameter sweep through the API runs one simulation after another): a few
     //      iterations of one fresh cell, one file pair per iteration.  It is not judged; what it leaves behind inside the process must not reach this run
-    std::string earlier_dir;
+    std::string earlier_dir; std::map<std::string, uint64_t> earlier_files;
     if (g.coin(0.3) && a.geti("earlier_run", 1) != 0) {
         earlier_dir = outdir + "_earlier"; global_simulation_parameters sp2 = sp; sp2.output_folder_path_ = earlier_dir; sp2.simulation_duration_ = 3.5 * sw.dt; sp2.sampling_period_ = sw.dt;
         try { gen::TriMesh m2 = gen::icosphere(1); gen::scale(m2, pop.r0, pop.r0, pop.r0); gen::translate(m2, 40 * pop.r0, 0, 0); sp2.min_edge_len_ = gen::mean_edge(m2) * 0.6; sp2.contact_cutoff_adhesion_ = sp2.contact_cutoff_repulsion_ = 0.1 * sp2.min_edge_len_;
             auto ct2 = std::make_shared<cell_type_parameters>(*pop.cells[0]->get_cell_type()); ct2->avg_growth_rate_ = 0; ct2->std_growth_rate_ = 0; ct2->avg_division_vol_ = INFINITY; ct2->std_division_vol_ = 0; ct2->min_vol_ = 0;
             std::vector<cell_ptr> l2 = {std::static_pointer_cast<cell>(gen::make_cell<lumen_cell>(m2, 0, ct2))}; auto S2 = std::make_unique<solver>(sp2, l2, 1, true, false); S2->run(); (void)S2.release(); o.bin("earlier_run_in_the_same_process"); }
         catch (const std::exception&) { o.bin("earlier_run_ended_by_exception"); }
-        std::error_code ec3; fs::remove_all(earlier_dir, ec3);
+        // what the earlier run wrote stays where it is; this run must not touch it
+        std::error_code ec3; if (fs::exists(earlier_dir, ec3)) for (auto& e : fs::recursive_directory_iterator(earlier_dir, ec3)) if (e.is_regular_file()) { bool pr = false; earlier_files[e.path().string()] = hash_str(read_file(e.path().string(), pr)); }
     }
     Monitor M; M.T = sw.T; M.dt = sw.dt; M.Sp = sw.S; g_mon = &M;
     verif::get().phase = phase_hook; verif::get().remesh_event = remesh_hook;
@@ -568,7 +569,8 @@ static std::string run_case(const Args& a, long i, const std::string& outdir) {
         std::set<long> dc, df; std::string bad1, bad2;
         list_results(outdir + "/cell_data", dc, bad1); list_results(outdir + "/face_data", df, bad2);
         if (!bad1.empty() || !bad2.empty()) o.viol("file_unexpected_name", "unexpected entry in the output folders: " + bad1 + " " + bad2);
-        if (!earlier_dir.empty() && fs::exists(earlier_dir)) { o.viol("file_written_into_the_folder_of_an_earlier_run", "the output folder of an earlier simulation of the same process (removed before this run started) exists again after this run: files of this run were written there"); std::error_code ec4; fs::remove_all(earlier_dir, ec4); }
+        if (!earlier_dir.empty()) { std::error_code ec4; std::map<std::string, uint64_t> now; if (fs::exists(earlier_dir, ec4)) for (auto& e : fs::recursive_directory_iterator(earlier_dir, ec4)) if (e.is_regular_file()) { bool pr = false; now[e.path().string()] = hash_str(read_file(e.path().string(), pr)); }
+            if (now != earlier_files) o.viol("file_written_into_the_folder_of_an_earlier_run", "the output folder of an earlier simulation of the same process held " + std::to_string(earlier_files.size()) + " files before this run and holds " + std::to_string(now.size()) + " files (or other contents) after it: this run wrote there"); }
         std::set<long> W; for (auto& r : M.files) W.insert(r.number);
         if (W.size() != M.files.size()) o.viol("file_overwritten", "the same file number was written twice");
         if (dc != df) o.viol("file_pair", "cell_data and face_data do not hold the same file numbers");
@@ -610,6 +612,7 @@ static std::string run_case(const Args& a, long i, const std::string& outdir) {
         if (sw.S == sw.dt) o.bin(K == M.iterations ? "S_eq_dt_one_file_per_iteration" : "S_eq_dt_fewer_files_than_iterations");
     }
 done:
+    if (!earlier_dir.empty()) { std::error_code ec5; fs::remove_all(earlier_dir, ec5); }
     o.settle();
     g_mon = nullptr; verif::get().phase = nullptr; verif::get().remesh_event = nullptr; verif::get().rng_seed = nullptr;
     std::ostringstream out; out << c.line() << "\n";
